@@ -133,12 +133,19 @@ def toMessage : PCount → Passed → String
   | .minimum r, p => s!"this function takes at least {r} {plural r} but {p.show} were supplied"
   | .variable, _ => "a variable amount of arguments"
 
+/-- the scope model keeps only the identifier of a loop variable; the definition range `visit_numeric_for` records
+    runs from the variable to the start of the comma after the first bound -/
+def numForDefSpan (ns : List Node) (ident : Nat) : Option Span :=
+  ns.findSome? fun n => match n with
+    | .stmt (.numFor _ v comma _ _ _ _) => if v.idx = ident then some ⟨v.idx, comma.idx - 1⟩ else none
+    | _ => none
+
 /-- `get_function_definiton_ranges` -/
-def definitionRanges (σ : St) (v : Nat) : List Span :=
+def definitionRanges (σ : St) (ns : List Node) (v : Nat) : List Span :=
   match σ.vars[v]? with
   | none => []
   | some var =>
-    var.defSpan :: var.references.filterMap fun id =>
+    ((numForDefSpan ns var.ident).getD var.defSpan) :: var.references.filterMap fun id =>
       (σ.refs[id]?).bind fun r => if r.write.isSome then some ⟨r.ident, r.ident⟩ else none
 
 /-- the `if_chain!` of `visit_function_call` up to the definition lookup: (variable, its count, the arguments) -/
@@ -149,19 +156,19 @@ def callee (σ : St) (defs : Defs) : FCall → Option (Nat × PCount × Args)
     | none => none
   | _ => none
 
-def checkCall (σ : St) (defs : Defs) : Node → List Diag
+def checkCall (σ : St) (ns : List Node) (defs : Defs) : Node → List Diag
   | .call c =>
     match callee σ defs c with
     | some (v, pc, a) =>
       if accepts pc (passedOf a) then []
       else [{ code := "mismatched_arg_count", primary := c.span, msg := toMessage pc (passedOf a),
-              secondary := definitionRanges σ v }]
+              secondary := definitionRanges σ ns v }]
     | none => []
   | _ => []
 
 def runWith (σ : St) (b : Block) : List Diag :=
   let ns := nBlock b
-  ns.flatMap (checkCall σ (build (events σ ns)))
+  ns.flatMap (checkCall σ ns (build (events σ ns)))
 
 def run (b : Block) : List Diag := runWith (analyse b) b
 
